@@ -166,6 +166,10 @@ def _promoted_stop(kind: Any) -> Any:
     return make
 
 
+# proper SUBCLASSES of the standard types (a decoding error, a missing-record error, an application's own hierarchy): what
+# comes out is that subclass, not its base re-created by somebody's ``except ValueError: raise ValueError(...)``
+for _base in (ValueError, TypeError, KeyError, RuntimeError, OSError, StopAsyncIteration, StopIteration, AttributeError):
+    FAULT_TYPES[_base.__name__ + "_subclass"] = type("Injected" + _base.__name__, (_base,), {})
 FAULT_TYPES["RuntimeError_caused_by_StopIteration"] = _promoted_stop(StopIteration)
 FAULT_TYPES["RuntimeError_caused_by_StopAsyncIteration"] = _promoted_stop(StopAsyncIteration)
 
@@ -746,7 +750,7 @@ async def _async_gen(st: SrcState):
         raise
 
 
-FLAVOURS_SYNC = ("list", "tuple", "getitem_seq", "sync_iter", "sync_gen", "sync_iterable", "tuple_sub", "list_sub")
+FLAVOURS_SYNC = ("list", "tuple", "getitem_seq", "sync_iter", "sync_gen", "sync_iterable", "tuple_sub", "list_sub", "sync_mapping")
 FLAVOURS_ASYNC = ("async_gen", "async_class", "async_class_bare", "async_class_full", "async_class_asend",
                   "async_class_future", "async_class_proxy", "async_class_lazy", "async_iterable", "async_class_lateclose", "async_class_delegating", "async_class_plainnext", "async_class_eagerstart", "async_class_bare_full", "async_class_sized", "async_class_aiter_once", "async_class_awaitable", "async_class_athrow")
 FLAVOURS = FLAVOURS_SYNC + FLAVOURS_ASYNC
@@ -773,6 +777,37 @@ class JobItem(Item):
         yield  # pragma: no cover
 
 
+class SyncMapping(__import__("collections").abc.Mapping):
+    """A synchronous MAPPING handed over as an iterable: iterating it gives its keys (the items), one by one, like any
+    other synchronous iterable.  Looking entries up in it is not what an iterable is for - reported as foreign."""
+
+    def __init__(self, st: SrcState):
+        self.st = st
+        self.asked = 0
+
+    def __iter__(self) -> Any:
+        self.asked += 1
+        if self.asked > 1:
+            CTX.foreign.append(f"iterable {self.st.sid} was asked for an iterator {self.asked} times")
+        _asked(self.st)
+        return SyncSrc(self.st)
+
+    def __len__(self) -> int:
+        return len(self.st.items)
+
+    def __getitem__(self, key: Any) -> Any:
+        CTX.foreign.append(f"the mapping {self.st.sid}, handed over as an iterable, was asked for the value of {key!r}")
+        raise KeyError(key)
+
+    def keys(self) -> Any:
+        CTX.foreign.append(f"the mapping {self.st.sid}, handed over as an iterable, was asked for its keys() view")
+        return super().keys()
+
+    def items(self) -> Any:
+        CTX.foreign.append(f"the mapping {self.st.sid}, handed over as an iterable, was asked for its items() view")
+        return super().items()
+
+
 class NotIterable:
     """An argument that supports no iteration protocol at all (a number, a record handed over by mistake)."""
 
@@ -787,6 +822,8 @@ def make_source(st: SrcState, flavour: str) -> Any:
     """Build the object handed to the library for ``st`` in the given flavour."""
     if flavour == "not_iterable":
         return NotIterable(st)
+    if flavour == "sync_mapping":
+        return SyncMapping(st)
     if flavour == "tuple_sub":
         return TupleSub(st.items)
     if flavour == "list_sub":
